@@ -10,6 +10,9 @@ from .values import *  # noqa: F401,F403
 from . import values as _v
 
 
+AXIOM_ARRAYS = False      # set by pyvc.verify for the refutation pass
+
+
 class Undecided(Exception):
     def __init__(self, what, line=None):
         super().__init__(f"{what}" + (f" @L{line}" if line else ""))
@@ -90,6 +93,9 @@ class Engine:
         self.axioms = []
         self.dropped = set()          # what extraction dropped (logger calls etc.)
         self.nforks = 0
+        self.axiom_arrays = AXIOM_ARRAYS
+        self.havocked = set()
+        self.deadline = None
         self.binders = []             # index variables of enclosing comprehensions (contract results become functions of them)
 
     # ------------------------------------------------------------------ obligations
@@ -155,7 +161,7 @@ class Engine:
                 arrs[p] = f(*flat) if flat else z3.Const(f"{name}[{p}]", z3.ArraySort(I, LEAF_SORT[k]))
             fl = self.uf(f"len_{name}", [t.sort() for t in flat], I)
             ln = fl(*flat) if flat else z3.Const(f"len_{name}", I)
-            self.axioms_once(("len>=0", name, str(flat)), ln >= 0)
+            self.axioms_once(("len>=0", name, str(flat)), z3.And(ln >= 0, ln <= _v.BOUND) if _v.BOUND is not None else ln >= 0)
             return VSeq(arrs, ln, retshape[1])
         # structured result: one UF per leaf
         def get(path, kind):
@@ -218,9 +224,24 @@ class Engine:
     # ------------------------------------------------------------------ expressions
     def ev(self, e, env, pc):
         m = getattr(self, "ev_" + type(e).__name__, None)
-        if m is None:
-            raise Undecided(f"expr {type(e).__name__}: {ast.unparse(e)[:60]}", getattr(e, "lineno", None))
-        return m(e, env, pc)
+        if not self.unit.lenient or self.spec_depth:
+            if m is None:
+                raise Undecided(f"expr {type(e).__name__}: {ast.unparse(e)[:60]}", getattr(e, "lineno", None))
+            return m(e, env, pc)
+        # lenient units (control-flow / guard obligations): an expression outside the subset evaluates to an
+        # unconstrained fresh value (over-approximation); every such abstraction is listed in the evidence
+        try:
+            if m is None:
+                raise Undecided(f"expr {type(e).__name__}")
+            n_ob, n_pc, n_pend = len(self.obligs), len(pc), len(self.pending)
+            return m(e, env, pc)
+        except Undecided as ex:
+            if m is not None:
+                del self.obligs[n_ob:]
+                del pc[n_pc:]
+                del self.pending[n_pend:]
+            self.havocked.add(f"L{getattr(e, 'lineno', '?')}: {ast.unparse(e)[:70]}  [{ex.what[:60]}]")
+            return VObj(fresh("havoc", OBJ))
 
     def ev_Constant(self, e, env, pc):
         if isinstance(e.value, bool):
@@ -269,6 +290,20 @@ class Engine:
         return self.attr_of(base, e.attr, pc, e.lineno)
 
     def ev_Tuple(self, e, env, pc):
+        if e.elts and all(isinstance(x, ast.Starred) for x in e.elts):
+            # (*a, *b): concatenation of the iterated sequences (dict operands contribute their keys)
+            parts = []
+            for x in e.elts:
+                v = self.ev(x.value, env, pc)
+                if isinstance(v, VMap):
+                    v = v.keys
+                if not isinstance(v, VSeq):
+                    raise Undecided("starred operand is not a sequence", e.lineno)
+                parts.append(v)
+            out = parts[0]
+            for p_ in parts[1:]:
+                out = self.seq_concat(out, p_)
+            return out
         return VTuple([self.ev(x, env, pc) for x in e.elts])
 
     def ev_List(self, e, env, pc):
@@ -343,13 +378,24 @@ class Engine:
             return VInt(r)
         raise Undecided(f"binop {type(op).__name__}", line)
 
+    def mk_array(self, k, term, pc=None):
+        """array whose k-th entry is `term` (k a z3 Int constant occurring in term).  Proof mode: a lambda term (beta
+        reduction for free).  Refutation mode (Engine.axiom_arrays): a fresh array constant with a quantified defining
+        axiom, which keeps the query inside what z3's model finder can certify."""
+        if not self.axiom_arrays:
+            kc = z3.Int("k!lam")     # canonical bound-variable name: equal comprehensions give structurally equal terms
+            return z3.Lambda([kc], z3.substitute(term, (k, kc)))
+        arr = fresh("arr", z3.ArraySort(I, term.sort()))
+        self.axioms.append(QAll([k], z3.Select(arr, k) == term))
+        return arr
+
     def seq_concat(self, a, b):
         if a.shape is None:
             return b
         if b.shape is None:
             return a
         k = z3.Int(f"k!{next(_v._cnt)}")
-        arrs = {p: z3.Lambda([k], z3.If(k < a.len, z3.Select(a.arrs[p], k), z3.Select(b.arrs[p], k - a.len))) for p in a.arrs}
+        arrs = {p: self.mk_array(k, z3.If(k < a.len, z3.Select(a.arrs[p], k), z3.Select(b.arrs[p], k - a.len))) for p in a.arrs}
         return VSeq(arrs, a.len + b.len, a.shape)
 
     def cmp_int(self, op, a, b):
@@ -399,8 +445,7 @@ class Engine:
                     raise Undecided("optional in set", line)
                 r = z3.Select(b.arr, a.t)
             elif isinstance(b, VSeq) and b.is_leaf(shape):
-                k = z3.Int(f"k!{next(_v._cnt)}")
-                r = z3.Exists([k], z3.And(0 <= k, k < b.len, z3.Select(b.arrs[()], k) == a.t))
+                r = q_ex(1, lambda k: z3.And(0 <= k, k < b.len, z3.Select(b.arrs[()], k) == a.t))
             elif isinstance(b, VTuple):
                 r = z3.Or(*[val_eq(a, it) for it in b.items]) if b.items else z3.BoolVal(False)
             else:
@@ -546,17 +591,19 @@ class Engine:
             if isinstance(base, VSeq):
                 lo_c, ln = self.clamp_slice(lo, hi, base.len)
                 k = z3.Int(f"k!{next(_v._cnt)}")
-                arrs = {p: z3.Lambda([k], z3.Select(a, k + lo_c)) for p, a in base.arrs.items()}
+                arrs = {p: self.mk_array(k, z3.Select(a, k + lo_c)) for p, a in base.arrs.items()}
                 return VSeq(arrs, ln, base.shape)
             if isinstance(base, VStr):
                 n = strlen(base.t)
                 lo_c, ln = self.clamp_slice(lo, hi, n)
                 r = substr(base.t, lo_c, lo_c + ln)
-                kk = z3.Int("k!ss")
-                self.axioms_once(("substr", str(r)), z3.And(strlen(r) == ln, z3.ForAll([kk], z3.Implies(z3.And(0 <= kk, kk < ln), charat(r, kk) == charat(base.t, lo_c + kk)))))
+                self.axioms_once(("substr", str(r)), z3.And(strlen(r) == ln, q_all(1, lambda kk: z3.Implies(z3.And(0 <= kk, kk < ln), charat(r, kk) == charat(base.t, lo_c + kk)))))
                 out = VStr(r)
                 out.window = (base, lo_c, ln)
                 return out
+            h = self.unit.subscripts.get("slice:" + type(base).__name__)
+            if h:
+                return h(self, base, lo, hi, pc, e.lineno)
             raise Undecided(f"slice of {type(base).__name__}", e.lineno)
         idxv = self.ev(e.slice, env, pc)
         if isinstance(base, VSeq):
@@ -602,7 +649,7 @@ class Engine:
     def ev_ListComp(self, e, env, pc):
         g, n, at = self.comp_source(e.generators, env, pc, e.lineno)
         if g.ifs:
-            raise Undecided("filtered comprehension as a value", e.lineno)
+            return self.filtered_comp(e, g, n, at, env, pc)
         k = z3.Int(f"k!{next(_v._cnt)}")
         rng = z3.And(0 <= k, k < n)
         env2 = dict(env)
@@ -616,11 +663,42 @@ class Engine:
             self.binders.pop()
         # facts learnt while evaluating the element (callee postconditions) hold for every index in range
         for f in sub[n0:]:
-            pc.append(z3.ForAll([k], z3.Implies(rng, f)))
+            pc.append(QAll([k], z3.Implies(rng, f)))
         sh = shape_of(val)
         lv = leaves_of(val, sh)
-        arrs = {p: z3.Lambda([k], lv[p]) for p, _ in shape_leaves(sh)}
+        arrs = {p: self.mk_array(k, lv[p]) for p, _ in shape_leaves(sh)}
         return VSeq(arrs, n, sh)
+
+    def filtered_comp(self, e, g, n, at, env, pc):
+        """[elt for x in xs if cond]: a fresh sequence F that is the subsequence of the mapped elements whose condition
+        holds: F[p] = elt(w(p)) with w strictly increasing and cond(w(p)); every index q with cond(q) occurs as w(u(q))."""
+        k = z3.Int(f"k!{next(_v._cnt)}")
+        rng = z3.And(0 <= k, k < n)
+        env2 = dict(env)
+        self.assign(g.target, at(k), env2, pc, e.lineno)
+        sub = list(pc) + [rng]
+        n0 = len(sub)
+        self.binders.append(k)
+        try:
+            conds = [self.truth(self.ev(c, env2, sub)) for c in g.ifs]
+            val = self.ev(e.elt, env2, sub)
+        finally:
+            self.binders.pop()
+        for f in sub[n0:]:
+            pc.append(QAll([k], z3.Implies(rng, f)))
+        cond = z3.And(*conds)
+        sh = shape_of(val)
+        F = fresh_val("filtered", ("seq", sh))
+        w = self.uf(f"filtw!{next(_v._cnt)}", [I], I)
+        u = self.uf(f"filtu!{next(_v._cnt)}", [I], I)
+        p, q = z3.Ints(f"p!{next(_v._cnt)} q!{next(_v._cnt)}")
+        lv = leaves_of(val, sh)
+        at_w = lambda idx: build_from_leaves(sh, lambda path, kind: z3.substitute(lv[path], (k, idx)))
+        pc.append(z3.And(F.len >= 0, F.len <= n))
+        pc.append(QAll([p], z3.Implies(z3.And(0 <= p, p < F.len), z3.And(0 <= w(p), w(p) < n, z3.substitute(cond, (k, w(p))), val_eq(seq_read(F, p), at_w(w(p)))))))
+        pc.append(QAll([p, q], z3.Implies(z3.And(0 <= p, p < q, q < F.len), w(p) < w(q))))
+        pc.append(QAll([q], z3.Implies(z3.And(0 <= q, q < n, z3.substitute(cond, (k, q))), z3.And(0 <= u(q), u(q) < F.len, w(u(q)) == q))))
+        return F
 
     def ev_SetComp(self, e, env, pc):
         """{elt for x in xs}: a fresh sequence D of pairwise distinct elements with the same element set as the
@@ -631,9 +709,9 @@ class Engine:
         u = self.uf(f"setu!{next(_v._cnt)}", [I], I)
         p, q = z3.Ints(f"p!{next(_v._cnt)} q!{next(_v._cnt)}")
         pc.append(z3.And(D.len >= 0, D.len <= lst.len, z3.Implies(lst.len > 0, D.len > 0)))
-        pc.append(z3.ForAll([p], z3.Implies(z3.And(0 <= p, p < D.len), z3.And(0 <= w(p), w(p) < lst.len, val_eq(seq_read(D, p), seq_read(lst, w(p)))))))
-        pc.append(z3.ForAll([q], z3.Implies(z3.And(0 <= q, q < lst.len), z3.And(0 <= u(q), u(q) < D.len, val_eq(seq_read(lst, q), seq_read(D, u(q)))))))
-        pc.append(z3.ForAll([p, q], z3.Implies(z3.And(0 <= p, p < q, q < D.len), z3.Not(val_eq(seq_read(D, p), seq_read(D, q))))))
+        pc.append(QAll([p], z3.Implies(z3.And(0 <= p, p < D.len), z3.And(0 <= w(p), w(p) < lst.len, val_eq(seq_read(D, p), seq_read(lst, w(p)))))))
+        pc.append(QAll([q], z3.Implies(z3.And(0 <= q, q < lst.len), z3.And(0 <= u(q), u(q) < D.len, val_eq(seq_read(lst, q), seq_read(D, u(q)))))))
+        pc.append(QAll([p, q], z3.Implies(z3.And(0 <= p, p < q, q < D.len), z3.Not(val_eq(seq_read(D, p), seq_read(D, q))))))
         D.is_set = True
         return D
 
@@ -648,8 +726,8 @@ class Engine:
         conds = [self.truth(self.ev(c, env2, sub)) for c in g.ifs]
         body = self.truth(self.ev(e.elt, env2, sub + conds))
         if kind == "any":
-            return VBool(z3.Exists([k], z3.And(rng, *conds, body)))
-        return VBool(z3.ForAll([k], z3.Implies(z3.And(rng, *conds), body)))
+            return VBool(QEx([k], z3.And(rng, *conds, body)))
+        return VBool(QAll([k], z3.Implies(z3.And(rng, *conds), body)))
 
     # ------------------------------------------------------------------ calls
     def ev_Call(self, e, env, pc):
@@ -802,14 +880,19 @@ class Engine:
                 body = self.truth(self.ev(lam.body, env2, list(pc)))
             finally:
                 self.spec_depth -= 1
-            return VBool(z3.ForAll(vs, body) if name.startswith("forall") else z3.Exists(vs, body))
+            return VBool(QAll(vs, body) if name.startswith("forall") else QEx(vs, body))
         if name == "implies" and isinstance(e.args[0], ast.Call) and isinstance(e.args[0].func, ast.Name) and e.args[0].func.id == "defined":
             if not all(a.value in env for a in e.args[0].args):
                 return VBool(True)
             return VBool(self.truth(self.ev(e.args[1], env, pc)))
-        args = [self.ev(a, env, pc) for a in e.args]
+        if name == "defined":
+            return VBool(all(a.value in env and not isinstance(env[a.value], VNone) for a in e.args))
         if name == "implies":
-            return VBool(z3.Implies(self.truth(args[0]), self.truth(args[1])))
+            a0 = self.truth(self.ev(e.args[0], env, pc))
+            if z3.is_false(z3.simplify(a0)):
+                return VBool(True)          # lazy: the consequent may not even be well-typed on this path
+            return VBool(z3.Implies(a0, self.truth(self.ev(e.args[1], env, list(pc) + [a0]))))
+        args = [self.ev(a, env, pc) for a in e.args]
         if name == "iff":
             return VBool(self.truth(args[0]) == self.truth(args[1]))
         if name == "ite":
@@ -873,12 +956,12 @@ class Engine:
         u = self.uf(f"perminv!{next(_v._cnt)}", [I], I)    # src[q] == R[u(q)]
         p, q = z3.Ints(f"p!{next(_v._cnt)} q!{next(_v._cnt)}")
         facts = [R.len == n,
-                 z3.ForAll([p], z3.Implies(z3.And(0 <= p, p < n), z3.And(0 <= w(p), w(p) < n, val_eq(seq_read(R, p), seq_read(src, w(p))), u(w(p)) == p))),
-                 z3.ForAll([q], z3.Implies(z3.And(0 <= q, q < n), z3.And(0 <= u(q), u(q) < n, val_eq(seq_read(src, q), seq_read(R, u(q))), w(u(q)) == q)))]
+                 QAll([p], z3.Implies(z3.And(0 <= p, p < n), z3.And(0 <= w(p), w(p) < n, val_eq(seq_read(R, p), seq_read(src, w(p))), u(w(p)) == p))),
+                 QAll([q], z3.Implies(z3.And(0 <= q, q < n), z3.And(0 <= u(q), u(q) < n, val_eq(seq_read(src, q), seq_read(R, u(q))), w(u(q)) == q)))]
         kp = self.key_of(keyfn, seq_read(R, p), pc)
         kq = self.key_of(keyfn, seq_read(R, q), pc)
         op = ast.GtE() if reverse else ast.LtE()
-        facts.append(z3.ForAll([p, q], z3.Implies(z3.And(0 <= p, p < q, q < n), self.compare(op, kp, kq, pc, line))))
+        facts.append(QAll([p, q], z3.Implies(z3.And(0 <= p, p < q, q < n), self.compare(op, kp, kq, pc, line))))
         for f in facts:
             pc.append(f)
         return R
@@ -921,7 +1004,7 @@ class Engine:
             n0 = len(sub)
             cmpv = self.compare(op, kb, kk, sub, line)
             extra = sub[len(pc) + 2:]
-            self.axioms_once((f"arg{which}", str(idx)), z3.ForAll([k], z3.Implies(z3.And(0 <= k, k < seq.len), z3.And(cmpv, *extra))))
+            self.axioms_once((f"arg{which}", str(idx)), QAll([k], z3.Implies(z3.And(0 <= k, k < seq.len), z3.And(cmpv, *extra))))
             return best
         raise Undecided(f"{which}(...)", line)
 
@@ -1060,6 +1143,8 @@ class Engine:
                 items = val.items
             elif isinstance(val, VRec):
                 items = list(val.fields.values())
+            elif self.unit.lenient and isinstance(val, VObj):
+                items = [VObj(fresh("havoc", OBJ)) for _ in target.elts]
             else:
                 raise Undecided(f"unpack of {type(val).__name__}", line)
             if len(items) != len(target.elts):
@@ -1099,6 +1184,24 @@ class Engine:
         return outs
 
     def stmt(self, st, env, pc):
+        if self.unit.lenient:
+            try:
+                return self.stmt_strict(st, env, pc)
+            except Undecided as ex:
+                if isinstance(st, (ast.If, ast.For, ast.While, ast.Try, ast.Return, ast.With)):
+                    raise
+                env = dict(env)
+                for n in ast.walk(st):
+                    if isinstance(n, ast.Name) and isinstance(n.ctx, ast.Store):
+                        env[n.id] = VObj(fresh("havoc", OBJ))
+                    elif isinstance(n, ast.Call) and isinstance(n.func, ast.Attribute) and n.func.attr in MUTATORS and isinstance(n.func.value, ast.Name) and n.func.value.id in env:
+                        env[n.func.value.id] = VObj(fresh("havoc", OBJ))
+                self.havocked.add(f"L{st.lineno}: statement `{ast.unparse(st)[:60]}`  [{ex.what[:60]}]")
+                self.pending = []
+                return [Outcome("fall", env, list(pc))]
+        return self.stmt_strict(st, env, pc)
+
+    def stmt_strict(self, st, env, pc):
         env = dict(env)
         pc = list(pc)
         outs = []
@@ -1206,6 +1309,8 @@ class Engine:
         raise Undecided(f"stmt {type(st).__name__}", st.lineno)
 
     def feasible(self, pc):
+        if _v.BOUND is not None:
+            return self._sat(pc)
         if self.nforks < self.unit.prune_after:
             return True
         s_ = z3.Solver()
@@ -1260,6 +1365,17 @@ class Engine:
 
     # ------------------------------------------------------------------ loops
     def iter_desc(self, it, env, pc):
+        if not self.unit.lenient:
+            return self.iter_desc_strict(it, env, pc)
+        try:
+            return self.iter_desc_strict(it, env, pc)
+        except Undecided as ex:
+            self.havocked.add(f"L{it.lineno}: iterable `{ast.unparse(it)[:60]}`  [{ex.what[:60]}]")
+            s2 = fresh_val("havoc_iter", ("seq", "obj"))
+            self.axioms.append(s2.len >= 0)
+            return s2.len, (lambda i: seq_read(s2, i)), s2
+
+    def iter_desc_strict(self, it, env, pc):
         """-> (length term, index -> element value, iterated VSeq or None)"""
         if isinstance(it, ast.Call) and isinstance(it.func, ast.Name) and it.func.id not in env:
             fn = it.func.id
@@ -1303,6 +1419,10 @@ class Engine:
                 return z3.IntVal(0), (lambda i: VNone()), None
             s2 = seq_literal(shape_of(items[0]), items)
             return s2.len, (lambda i: seq_read(s2, i)), s2
+        if self.unit.lenient and isinstance(seq, VObj):
+            s2 = fresh_val("havoc_iter", ("seq", "obj"))
+            self.axioms.append(s2.len >= 0)
+            return s2.len, (lambda i: seq_read(s2, i)), s2
         raise Undecided(f"iteration over {type(seq).__name__}: {ast.unparse(it)[:50]}", it.lineno)
 
     def modified_names(self, body, env):
@@ -1322,6 +1442,8 @@ class Engine:
     def loop_spec(self, st):
         lid = self.loops.get(id(st))
         spec = self.unit.loops.get(lid)
+        if spec is None and self.unit.lenient:
+            spec = {"inv": []}
         if spec is None:
             raise Undecided(f"loop #{lid} needs an invariant", st.lineno)
         return lid, spec
@@ -1356,8 +1478,100 @@ class Engine:
         e2["_entry"] = VRec("_entry", {k: v for k, v in entry_env.items() if isinstance(v, V) and not isinstance(v, (VLambda, VPy, VFunc))})
         return e2
 
+    # -- bounded (refutation) mode: loops are unrolled, no invariants are used
+    def _sat(self, pc):
+        import time as _t
+        if self.deadline is not None and _t.time() > self.deadline:
+            raise Undecided("bounded pass: generation budget exceeded")
+        s_ = z3.Solver()
+        s_.set("timeout", 500)
+        s_.add(*self.axioms)
+        s_.add(*pc)
+        return s_.check() != z3.unsat
+
+    def for_loop_bounded(self, st, env, pc):
+        B_ = _v.BOUND
+        outs = []
+        lid = self.loops.get(id(st))
+        spec = self.unit.loops.get(lid) or {}
+        n, at, seq = self.iter_desc(st.iter, env, pc)
+        self.flush_pending(env, outs)
+        for nm, sh in spec.get("declare", {}).items():
+            if nm not in env:
+                env[nm] = fresh_val(nm, sh)
+        pc = pc + [n >= 0, n <= B_]
+        states = [(env, pc)]
+
+        def leave(env_, pc_):
+            if st.orelse:
+                return self.run(st.orelse, env_, pc_)
+            return [Outcome("fall", env_, pc_)]
+
+        for i in range(B_ + 1):
+            nxt = []
+            for env_, pc_ in states:
+                if self._sat(pc_ + [n == i]):
+                    outs += leave(env_, pc_ + [n == i])
+                if i == B_ or not self._sat(pc_ + [n > i]):
+                    continue
+                envb = dict(env_)
+                envb["_i"] = VInt(i)
+                if seq is not None:
+                    envb["_iter"] = seq
+                pcb = pc_ + [n > i]
+                self.assign(st.target, at(z3.IntVal(i)), envb, pcb, st.lineno)
+                body_outs = self.apply_body_contract(spec["body_contract"], envb, pcb, st) if spec.get("body_contract") else self.run(st.body, envb, pcb)
+                for o in body_outs:
+                    if o.kind in ("fall", "continue"):
+                        nxt.append((o.env, o.pc))
+                    elif o.kind == "break":
+                        outs.append(Outcome("fall", o.env, o.pc))
+                    else:
+                        outs.append(o)
+            states = nxt
+            if len(states) > 512:
+                raise Undecided("bounded unrolling: path explosion", st.lineno)
+        return outs
+
+    def while_loop_bounded(self, st, env, pc):
+        B_ = _v.BOUND
+        outs = []
+        lid = self.loops.get(id(st))
+        spec = self.unit.loops.get(lid) or {}
+        for nm, sh in spec.get("declare", {}).items():
+            if nm not in env:
+                env[nm] = fresh_val(nm, sh)
+        states = [(env, pc)]
+        for it in range(B_ + 2):
+            nxt = []
+            for env_, pc_ in states:
+                env_ = dict(env_)
+                pc_ = list(pc_)
+                t = self.truth(self.ev(st.test, env_, pc_))
+                self.flush_pending(env_, outs)
+                if self._sat(pc_ + [z3.Not(t)]):
+                    if st.orelse:
+                        outs += self.run(st.orelse, env_, pc_ + [z3.Not(t)])
+                    else:
+                        outs.append(Outcome("fall", env_, pc_ + [z3.Not(t)]))
+                if it == B_ + 1 or not self._sat(pc_ + [t]):
+                    continue
+                for o in self.run(st.body, env_, pc_ + [t]):
+                    if o.kind in ("fall", "continue"):
+                        nxt.append((o.env, o.pc))
+                    elif o.kind == "break":
+                        outs.append(Outcome("fall", o.env, o.pc))
+                    else:
+                        outs.append(o)
+            states = nxt
+            if len(states) > 512:
+                raise Undecided("bounded unrolling: path explosion", st.lineno)
+        return outs
+
     def for_loop(self, st, env, pc):
         self._pc_at_stmt = list(pc)
+        if _v.BOUND is not None and not (isinstance(st.iter, (ast.Tuple, ast.List)) and self.loops.get(id(st)) not in self.unit.loops):
+            return self.for_loop_bounded(st, env, pc)
         if isinstance(st.iter, (ast.Tuple, ast.List)) and id(st) in self.loops and self.loops[id(st)] not in self.unit.loops:
             return self.unroll_const(st, env, pc)
         lid, spec = self.loop_spec(st)
@@ -1407,6 +1621,9 @@ class Engine:
         i = fresh("i", I)
         pch = pc + [0 <= i, i < n] + inv_at(envh, i, pc)
         envb = dict(envh)
+        envb["_i"] = VInt(i)
+        if seq is not None:
+            envb["_iter"] = seq
         self.assign(st.target, at(i), envb, pch, st.lineno)
         for o in (self.apply_body_contract(spec["body_contract"], envb, pch, st) if spec.get("body_contract") else self.run(st.body, envb, pch)):
             if o.kind in ("fall", "continue"):
@@ -1448,6 +1665,8 @@ class Engine:
         return [Outcome("fall", post, pc)]
 
     def while_loop(self, st, env, pc):
+        if _v.BOUND is not None:
+            return self.while_loop_bounded(st, env, pc)
         lid, spec = self.loop_spec(st)
         outs = []
         for nm, sh in spec.get("declare", {}).items():
